@@ -1167,4 +1167,619 @@ theorem ack_core (seen : List Rid) (t : Task) (hti : TaskInv seen t) (herr : t.e
   | failure => exact absurd hst this
   | processing => simp [hst] at hterm
 
+-- ------------------------------------------------------- cores of the property theorems ----
+
+/-- no worker answer was counted twice: every id is answered at most once with
+    a terminal status in the event sequence -/
+def NoDuplicateAnswers (ops : List Op) : Prop := (opRids ops).Nodup
+
+instance (ops : List Op) : Decidable (NoDuplicateAnswers ops) := by
+  unfold NoDuplicateAnswers; infer_instance
+
+theorem one_final_deadline_core (fwd excl ret : Bool) (T n : Nat) (hc : fwd = false ∨ excl = true)
+    (pre mid post : List Op) (c : Nat) (v : Verb)
+    (hv : v.hasDeadline = true ∨ v.immediate.isSome = true)
+    (halive : (run (Hub.init fwd excl ret T n) pre).run ≠ .exited)
+    (halive' : (run (Hub.init fwd excl ret T n) (pre ++ [.request c v] ++ mid)).run ≠ .exited)
+    (hlate : (run (Hub.init fwd excl ret T n) pre).now + T
+        < (run (Hub.init fwd excl ret T n) (pre ++ [.request c v] ++ mid)).now) :
+    finalsOf (run (Hub.init fwd excl ret T n) pre).nextReq
+      (run (Hub.init fwd excl ret T n) (pre ++ [.request c v] ++ mid ++ [.tick] ++ post)).log = 1 := by
+  -- names
+  generalize hs0 : Hub.init fwd excl ret T n = s0 at *
+  have hg0 : Good s0 := hs0 ▸ good_init fwd excl ret T n hc
+  have hi0 : Inv s0 := hs0 ▸ inv_init fwd excl ret T n
+  have hT : s0.timeout = T := by rw [← hs0]; rfl
+  generalize hs1 : run s0 pre = s1 at *
+  have hg1 : Good s1 := hs1 ▸ good_run s0 pre hg0
+  have hi1 : Inv s1 := hs1 ▸ inv_run s0 pre hi0
+  have hT1 : s1.timeout = T := by rw [← hs1, (run_cfg s0 pre).2.2, hT]
+  let r := s1.nextReq
+  let s2 := step s1 (.request c v)
+  have hg2 : Good s2 := good_step s1 _ hg1
+  have hi2 : Inv s2 := inv_step s1 _ hi1
+  have hr2 : r < s2.nextReq := by
+    have := step_nextReq s1 (.request c v); simp only [halive, if_false] at this
+    show s1.nextReq < (step s1 (.request c v)).nextReq; omega
+  have hans : v.answers = true := by
+    simp only [Verb.answers, Bool.or_eq_true]
+    rcases hv with hv | hv
+    · left; cases v <;> simp_all [Verb.hasDeadline, Verb.gathers]
+    · right; exact hv
+  have ha2 : acct r s2 = 1 := by
+    have := acct_request_new s1 c v hg1.bounds halive; rw [hans] at this; simpa using this
+  have ho2 : Owned r c v s1.now s2 := owned_request s1 c v hg1.bounds
+  -- after `mid`
+  have e3 : run s0 (pre ++ [.request c v] ++ mid) = run s2 mid := by
+    rw [run_append, run_append, hs1]; rfl
+  rw [e3] at halive' hlate
+  generalize hs3 : run s2 mid = s3 at *
+  have hg3 : Good s3 := hs3 ▸ good_run s2 mid hg2
+  have hi3 : Inv s3 := hs3 ▸ inv_run s2 mid hi2
+  have hr3 : r < s3.nextReq := by
+    rw [← hs3]; clear hs3
+    have : ∀ (h : Hub) (ops : List Op), h.nextReq ≤ (run h ops).nextReq := by
+      intro h ops; induction ops generalizing h with
+      | nil => exact Nat.le_refl _
+      | cons o os ih => rw [run_cons]; exact Nat.le_trans (step_nextReq_mono h o) (ih _)
+    exact Nat.lt_of_lt_of_le hr2 (this s2 mid)
+  have ha3 : acct r s3 = 1 := by rw [← hs3, acct_run_old s2 mid hg2 r hr2]; exact ha2
+  have ho3 : Owned r c v s1.now s3 := hs3 ▸ owned_run s2 mid hg2.bounds r c v s1.now hr2 ho2
+  have hT3 : s3.timeout = T := by
+    rw [← hs3, (run_cfg s2 mid).2.2]; show (step s1 _).timeout = T; rw [(step_cfg s1 _).2.2, hT1]
+  -- the pass of the run loop
+  let s4 := step s3 .tick
+  have hg4 : Good s4 := good_step s3 _ hg3
+  have ha4 : acct r s4 = 1 := by rw [acct_step_old s3 .tick hg3.bounds hg3.one r hr3]; exact ha3
+  have hp4 : pendingOf r s4.tasks = 0 := by
+    apply pending_zero_of
+    intro t ht hreq
+    have hnd := tick_clears s3 halive' t ht
+    have hmem : t ∈ s3.tasks := by
+      simp only [s4, step, tick, halive', if_false, List.mem_filter] at ht; exact ht.1
+    obtain ⟨_, hverb, hborn⟩ := ho3 t hmem hreq
+    have hgath := (hi3.bounds.tasks_lt t hmem).2.2
+    rcases hv with hv | hv
+    · have hd := (hi3.timed t hmem).2
+      rw [hverb, hv, if_pos rfl, hborn, hT3] at hd
+      simp only [isDone, deadlinePassed, hd, Bool.or_eq_false_iff, decide_eq_false_iff_not] at hnd
+      omega
+    · rw [hverb] at hgath
+      cases v <;> simp_all [Verb.gathers, Verb.immediate]
+  have hf4 : finalsOf r s4.log = 1 := by simp only [acct] at ha4; omega
+  -- afterwards
+  have e5 : run s0 (pre ++ [.request c v] ++ mid ++ [.tick] ++ post) = run s4 post := by
+    rw [run_append, run_append, e3]; rfl
+  rw [e5]
+  have hr4 : r < s4.nextReq := Nat.lt_of_lt_of_le hr3 (step_nextReq_mono s3 .tick)
+  have ha5 : acct r (run s4 post) = 1 := by rw [acct_run_old s4 post hg4 r hr4]; exact ha4
+  have hm := finals_run_mono s4 post r
+  simp only [acct] at ha5
+  show finalsOf r (run s4 post).log = 1
+  omega
+
+theorem terminates_core (fwd excl ret : Bool) (T n : Nat) (ops : List Op)
+    (halive : (run (Hub.init fwd excl ret T n) ops).run ≠ .exited) :
+    ∀ t ∈ (step (run (Hub.init fwd excl ret T n) ops) .tick).tasks,
+      hasFinished t = false ∧
+      (t.verb.hasDeadline = true → (run (Hub.init fwd excl ret T n) ops).now ≤ t.born + T) := by
+  intro t ht
+  have hi := inv_run _ ops (inv_init fwd excl ret T n)
+  have hT : (run (Hub.init fwd excl ret T n) ops).timeout = T := by rw [(run_cfg _ ops).2.2]; rfl
+  generalize run (Hub.init fwd excl ret T n) ops = s at *
+  have hnd := tick_clears s halive t ht
+  have hmem : t ∈ s.tasks := by
+    simp only [step, tick, halive, if_false, List.mem_filter] at ht; exact ht.1
+  simp only [isDone, Bool.or_eq_false_iff] at hnd
+  refine ⟨hnd.1, fun hd => ?_⟩
+  have := (hi.timed t hmem).2
+  rw [hd, if_pos rfl, hT] at this
+  simp only [deadlinePassed, this, decide_eq_false_iff_not] at hnd
+  omega
+
+theorem newTask_sent_iff (h : Hub) (c : Nat) (v : Verb) (rid : Rid) :
+    rid ∈ (newTask h c v).sent ↔
+      (rid.task = h.nextTask ∧ rid.sub ∈ v.subs ∧ (rid.worker, false) ∈ h.workers) := by
+  simp only [newTask, allRids, ridsFor, liveWorkers, List.mem_flatMap, List.mem_map, List.mem_filter]
+  constructor
+  · rintro ⟨sub, hsub, w, ⟨⟨w', st⟩, ⟨hw, hst⟩, rfl⟩, rfl⟩
+    simp only [Bool.not_eq_eq_eq_not, Bool.not_true] at hst
+    subst hst
+    exact ⟨rfl, hsub, hw⟩
+  · rintro ⟨h1, h2, h3⟩
+    refine ⟨rid.sub, h2, rid.worker, ⟨(rid.worker, false), ⟨h3, by simp⟩, rfl⟩, ?_⟩
+    cases rid; simp_all
+
+theorem ok_all_acked_core (fwd excl ret : Bool) (T n : Nat) (ops : List Op)
+    (hnd : ret = true ∨ NoDuplicateAnswers ops)
+    (e : Emit) (he : e ∈ (run (Hub.init fwd excl ret T n) ops).log)
+    (t : Task) (to : Bool) (hsrc : e.src = some (t, to)) (hk : e.kind = .ok)
+    (hverb : t.verb = .worker ∨ ∃ k, t.verb = .loadState k) (hpath : fwd = true ∨ to = false) :
+    AllAcked t ∧ ∀ g ∈ t.got, g.2.2 ≠ .failure := by
+  have hi := inv_run _ ops (inv_init fwd excl ret T n)
+  have hcfg := run_cfg (Hub.init fwd excl ret T n) ops
+  have hseen := seen_run (Hub.init fwd excl ret T n) ops
+  have hlt := logTimed_run fwd excl ret T n ops
+  have hret : ret = true → Retired (run (Hub.init fwd excl ret T n) ops) := by
+    intro h; subst h; exact retired_run fwd excl T n ops
+  generalize run (Hub.init fwd excl ret T n) ops = s at *
+  obtain ⟨hti, hto, _, _, hkind⟩ := hi.acc.log e he t to hsrc
+  have hfwd : s.fwd = fwd := hcfg.1
+  rw [hk, hfwd] at hkind
+  -- the verdict rules: no error counted, and the verdict was not a deadline verdict
+  have hboth : t.errors = 0 ∧ to = false := by
+    rcases hverb with hv | ⟨k, hv⟩
+    · obtain ⟨herr, hpassed⟩ := verdict_worker_ok _ t _ hv hkind
+      refine ⟨herr, ?_⟩
+      rcases hpath with hp | hp
+      · subst hp; simpa using hpassed
+      · exact hp
+    · refine ⟨verdict_load_ok _ t _ k hv hkind, ?_⟩
+      -- LoadState is gathered without a deadline: it is only released once finished
+      cases hto' : to with
+      | false => rfl
+      | true => have := hlt e he t to hsrc hto'; simp [hv, Verb.hasDeadline] at this
+  obtain ⟨herr, hto'⟩ := hboth
+  have hfin : hasFinished t = true := by
+    have h0 : timedOut t = false := by rw [← hto, hto']
+    simpa [timedOut] using h0
+  simp only [hasFinished, decide_eq_true_eq] at hfin
+  have hnodup : (termRids t.got).Nodup := by
+    rcases hnd with hnd | hnd
+    · exact (hret hnd).log e he t to hsrc
+    · rw [List.nodup_iff_count]
+      intro rid
+      have h1 := hti.counted rid
+      have h2 := hseen rid
+      have h3 : (opRids ops).count rid ≤ 1 := List.nodup_iff_count.mp hnd rid
+      simp only [Hub.init, List.count_nil, Nat.zero_add] at h2
+      omega
+  exact ack_core s.seen t hti herr hfin hnodup
+
+theorem no_failure_core (fwd excl ret : Bool) (T n : Nat) (ops : List Op)
+    (e : Emit) (he : e ∈ (run (Hub.init fwd excl ret T n) ops).log)
+    (t : Task) (to : Bool) (hsrc : e.src = some (t, to)) (hk : e.kind = .ok)
+    (hverb : t.verb = .worker ∨ ∃ k, t.verb = .loadState k) :
+    ∀ g ∈ t.got, g.2.2 ≠ .failure := by
+  have hi := inv_run _ ops (inv_init fwd excl ret T n)
+  generalize run (Hub.init fwd excl ret T n) ops = s at *
+  obtain ⟨hti, _, _, _, hkind⟩ := hi.acc.log e he t to hsrc
+  rw [hk] at hkind
+  have herr : t.errors = 0 := by
+    rcases hverb with hv | ⟨k, hv⟩
+    · exact (verdict_worker_ok _ t _ hv hkind).1
+    · exact verdict_load_ok _ t _ k hv hkind
+  have h0 : failCount t.got = 0 := by rw [← hti.errors]; exact herr
+  simp only [failCount, List.countP_eq_zero] at h0
+  intro g hg hgf; exact h0 g hg (by simp [hgf])
+
+theorem no_cross_talk_response_core (fwd excl ret : Bool) (T n : Nat) (ops : List Op)
+    (w : Nat) (rid : Rid) (st : St) :
+    let s := run (Hub.init fwd excl ret T n) ops
+    (∀ t ∈ s.tasks, rid ∉ t.sent → t ∈ (step s (.response w rid st)).tasks) ∧
+    ∃ l, (step s (.response w rid st)).log = s.log ++ l ∧
+      ∀ e ∈ l, e.kind = .processing ∧ ∃ t ∈ s.tasks, rid ∈ t.sent ∧ e.req = t.req ∧ e.client = t.client := by
+  intro s
+  have hi := inv_run _ ops (inv_init fwd excl ret T n)
+  exact ⟨fun t ht hn => response_frame s hi.acc w rid st t ht hn, response_emits s hi.acc w rid st⟩
+
+theorem no_cross_talk_core (fwd excl ret : Bool) (T n : Nat) (pre post : List Op) (c : Nat) (v : Verb)
+    (halive : (run (Hub.init fwd excl ret T n) pre).run ≠ .exited) :
+    ∀ e ∈ (run (Hub.init fwd excl ret T n) (pre ++ [.request c v] ++ post)).log,
+      e.req = (run (Hub.init fwd excl ret T n) pre).nextReq → e.client = c := by
+  generalize hs0 : Hub.init fwd excl ret T n = s0 at *
+  have hi0 : Inv s0 := hs0 ▸ inv_init fwd excl ret T n
+  generalize hs1 : run s0 pre = s1 at *
+  have hi1 : Inv s1 := hs1 ▸ inv_run s0 pre hi0
+  have e2 : run s0 (pre ++ [.request c v] ++ post) = run (step s1 (.request c v)) post := by
+    rw [run_append, run_append, hs1]; rfl
+  rw [e2]
+  have hr2 : s1.nextReq < (step s1 (.request c v)).nextReq := by
+    have := step_nextReq s1 (.request c v); simp only [halive, if_false] at this; omega
+  exact logOwned_run (step s1 (.request c v)) post (bounds_step s1 _ hi1.bounds) s1.nextReq c v s1.now hr2
+    (owned_request s1 c v hi1.bounds) (logOwned_request s1 c v hi1.bounds)
+
+theorem classify_answered (cv : ClientVerb) (h1 : cv ≠ .softStop) (h2 : ∀ k, cv ≠ .load k) :
+    (cv.classify true).hasDeadline = true ∨ (cv.classify true).immediate.isSome = true := by
+  cases cv <;> simp_all [ClientVerb.classify, Verb.hasDeadline, Verb.immediate]
+
+-- ------------------------------------------------------- load_state batching, distinct ids ----
+
+theorem nodup_map_inj {α β : Type} (f : α → β) (hf : ∀ a b, f a = f b → a = b) (l : List α) (h : l.Nodup) :
+    (l.map f).Nodup := by
+  induction l with
+  | nil => simp
+  | cons x xs ih =>
+    have ⟨h1, h2⟩ := List.nodup_cons.mp h
+    simp only [List.map_cons, List.nodup_cons, List.mem_map]
+    refine ⟨?_, ih h2⟩
+    rintro ⟨y, hy, hxy⟩
+    exact h1 (hf _ _ hxy ▸ hy)
+
+-- ---- load_state batching ----
+
+theorem loadSubsFrom_eq (c : Nat) (bs : List Nat) :
+    loadSubsFrom c bs = (List.range bs.sum).map (· + c + 1) := by
+  induction bs generalizing c with
+  | nil => simp [loadSubsFrom]
+  | cons b bs ih =>
+    simp only [loadSubsFrom, ih, List.sum_cons, List.range_add, List.map_append, List.map_map]
+    congr 1
+    apply List.map_congr_left
+    intro a _
+    simp only [Function.comp]
+    omega
+
+theorem loadSubs_eq (bs : List Nat) : loadSubs bs = (Verb.loadState bs.sum).subs := by
+  simp [loadSubs, loadSubsFrom_eq, Verb.subs]
+
+theorem subs_nodup (v : Verb) : v.subs.Nodup := by
+  cases v <;> simp [Verb.subs]
+  rename_i k
+  exact nodup_map_inj _ (by intro a b h; omega) _ List.nodup_range
+
+-- ---- worker ids are distinct; so are the ids of a scatter ----
+
+def WorkersNodup (h : Hub) : Prop := (h.workers.map (·.1)).Nodup
+
+theorem workersNodup_init (a b c : Bool) (t n : Nat) : WorkersNodup (Hub.init a b c t n) := by
+  simp only [WorkersNodup, Hub.init, List.map_map]
+  exact nodup_map_inj _ (by intro a b h; simpa using h) _ List.nodup_range
+
+theorem workersNodup_step (h : Hub) (op : Op) (hw : WorkersNodup h) : WorkersNodup (step h op) := by
+  have key : ∀ (f : Nat × Bool → Nat × Bool), (∀ x, (f x).1 = x.1) → ((h.workers.map f).map (·.1)) = h.workers.map (·.1) := by
+    intro f hf; simp only [List.map_map]; apply List.map_congr_left; intro x _; exact hf x
+  cases op with
+  | request c v => simp only [step, request]; split <;> exact hw
+  | response w rid st => simp only [step, response]; split <;> exact hw
+  | close w =>
+    simp only [step, close]; split
+    · exact hw
+    · simp only [WorkersNodup]; rw [key _ (by intro x; split <;> rfl)]; exact hw
+  | sendFail w => simp only [step, sendFail]; split <;> exact hw
+  | advance n => exact hw
+  | drop c => simp only [step]; split <;> exact hw
+  | tick =>
+    simp only [step, tick]; split
+    · exact hw
+    · simp only [WorkersNodup]; rw [key _ (by intro x; split <;> rfl)]; exact hw
+
+theorem workersNodup_run (a b c : Bool) (T n : Nat) (ops : List Op) : WorkersNodup (run (Hub.init a b c T n) ops) := by
+  suffices ∀ h, WorkersNodup h → WorkersNodup (run h ops) from this _ (workersNodup_init a b c T n)
+  induction ops with
+  | nil => intro h hw; exact hw
+  | cons o os ih => intro h hw; rw [run_cons]; exact ih _ (workersNodup_step h o hw)
+
+theorem liveWorkers_nodup (h : Hub) (hw : WorkersNodup h) : (liveWorkers h).Nodup := by
+  unfold liveWorkers WorkersNodup at *
+  exact List.Nodup.sublist (List.Sublist.map _ List.filter_sublist) hw
+
+/-- the ids of one scatter (every sub index × every live worker) are pairwise distinct -/
+theorem allRids_nodup (h : Hub) (hw : WorkersNodup h) (task : Nat) (subs : List Nat) (hs : subs.Nodup) :
+    (subs.flatMap (ridsFor h task)).Nodup := by
+  have hl := liveWorkers_nodup h hw
+  induction subs with
+  | nil => simp
+  | cons s ss ih =>
+    have ⟨hs1, hs2⟩ := List.nodup_cons.mp hs
+    simp only [List.flatMap_cons]
+    rw [List.nodup_append]
+    refine ⟨?_, ih hs2, ?_⟩
+    · simp only [ridsFor]
+      exact nodup_map_inj _ (by intro a b hab; simpa using hab) _ hl
+    · intro a ha b hb hab
+      simp only [ridsFor, List.mem_map, List.mem_flatMap] at ha hb
+      obtain ⟨w, _, rfl⟩ := ha
+      obtain ⟨s', hs', w', _, rfl⟩ := hb
+      simp only [Rid.mk.injEq] at hab
+      exact hs1 (hab.2.2 ▸ hs')
+
+-- ------------------------------------------------------- every verb, one client per request ----
+
+/-- **core of "exactly one final answer" for every verb**: a request accepted by a
+    running main process for a verb that is answered, all of whose pending tasks
+    are releasable (finished, or past their deadline) when a run-loop pass
+    happens while the main process still runs, has exactly one final answer from
+    then on. -/
+theorem one_final_core (fwd excl ret : Bool) (T n : Nat) (hc : fwd = false ∨ excl = true)
+    (pre mid post : List Op) (c : Nat) (v : Verb) (hans : v.answers = true)
+    (halive : (run (Hub.init fwd excl ret T n) pre).run ≠ .exited)
+    (halive' : (run (Hub.init fwd excl ret T n) (pre ++ [.request c v] ++ mid)).run ≠ .exited)
+    (hrel : ∀ t ∈ (run (Hub.init fwd excl ret T n) (pre ++ [.request c v] ++ mid)).tasks,
+        t.req = (run (Hub.init fwd excl ret T n) pre).nextReq →
+        isDone (run (Hub.init fwd excl ret T n) (pre ++ [.request c v] ++ mid)).now t = true) :
+    finalsOf (run (Hub.init fwd excl ret T n) pre).nextReq
+      (run (Hub.init fwd excl ret T n) (pre ++ [.request c v] ++ mid ++ [.tick] ++ post)).log = 1 := by
+  generalize hs0 : Hub.init fwd excl ret T n = s0 at *
+  have hg0 : Good s0 := hs0 ▸ good_init fwd excl ret T n hc
+  generalize hs1 : run s0 pre = s1 at *
+  have hg1 : Good s1 := hs1 ▸ good_run s0 pre hg0
+  let r := s1.nextReq
+  let s2 := step s1 (.request c v)
+  have hg2 : Good s2 := good_step s1 _ hg1
+  have hr2 : r < s2.nextReq := by
+    have := step_nextReq s1 (.request c v); simp only [halive, if_false] at this
+    show s1.nextReq < (step s1 (.request c v)).nextReq; omega
+  have ha2 : acct r s2 = 1 := by
+    have := acct_request_new s1 c v hg1.bounds halive; rw [hans] at this; simpa using this
+  have e3 : run s0 (pre ++ [.request c v] ++ mid) = run s2 mid := by
+    rw [run_append, run_append, hs1]; rfl
+  rw [e3] at halive' hrel
+  generalize hs3 : run s2 mid = s3 at *
+  have hg3 : Good s3 := hs3 ▸ good_run s2 mid hg2
+  have hr3 : r < s3.nextReq := by
+    rw [← hs3]
+    have : ∀ (h : Hub) (ops : List Op), h.nextReq ≤ (run h ops).nextReq := by
+      intro h ops; induction ops generalizing h with
+      | nil => exact Nat.le_refl _
+      | cons o os ih => rw [run_cons]; exact Nat.le_trans (step_nextReq_mono h o) (ih _)
+    exact Nat.lt_of_lt_of_le hr2 (this s2 mid)
+  have ha3 : acct r s3 = 1 := by rw [← hs3, acct_run_old s2 mid hg2 r hr2]; exact ha2
+  let s4 := step s3 .tick
+  have hg4 : Good s4 := good_step s3 _ hg3
+  have ha4 : acct r s4 = 1 := by rw [acct_step_old s3 .tick hg3.bounds hg3.one r hr3]; exact ha3
+  have hp4 : pendingOf r s4.tasks = 0 := by
+    apply pending_zero_of
+    intro t ht hreq
+    have hnd := tick_clears s3 halive' t ht
+    have hmem : t ∈ s3.tasks := by
+      simp only [s4, step, tick, halive', if_false, List.mem_filter] at ht; exact ht.1
+    have := hrel t hmem hreq
+    rw [this] at hnd; cases hnd
+  have hf4 : finalsOf r s4.log = 1 := by simp only [acct] at ha4; omega
+  have e5 : run s0 (pre ++ [.request c v] ++ mid ++ [.tick] ++ post) = run s4 post := by
+    rw [run_append, run_append, e3]; rfl
+  rw [e5]
+  have hr4 : r < s4.nextReq := Nat.lt_of_lt_of_le hr3 (step_nextReq_mono s3 .tick)
+  have ha5 : acct r (run s4 post) = 1 := by rw [acct_run_old s4 post hg4 r hr4]; exact ha4
+  have hm := finals_run_mono s4 post r
+  simp only [acct] at ha5
+  show finalsOf r (run s4 post).log = 1
+  omega
+
+/-- the deadline of every pending task of request `r` (a `Timeout::Default` verb) has passed -/
+theorem releasable_of_deadline (fwd excl ret : Bool) (T n : Nat)
+    (pre mid : List Op) (c : Nat) (v : Verb)
+    (halive : (run (Hub.init fwd excl ret T n) pre).run ≠ .exited)
+    (hlate : (run (Hub.init fwd excl ret T n) pre).now + T
+        < (run (Hub.init fwd excl ret T n) (pre ++ [.request c v] ++ mid)).now) :
+    ∀ t ∈ (run (Hub.init fwd excl ret T n) (pre ++ [.request c v] ++ mid)).tasks,
+        t.req = (run (Hub.init fwd excl ret T n) pre).nextReq → t.verb.hasDeadline = true →
+        isDone (run (Hub.init fwd excl ret T n) (pre ++ [.request c v] ++ mid)).now t = true := by
+  generalize hs0 : Hub.init fwd excl ret T n = s0 at *
+  have hi0 : Inv s0 := hs0 ▸ inv_init fwd excl ret T n
+  have hT : s0.timeout = T := by rw [← hs0]; rfl
+  generalize hs1 : run s0 pre = s1 at *
+  have hi1 : Inv s1 := hs1 ▸ inv_run s0 pre hi0
+  have hT1 : s1.timeout = T := by rw [← hs1, (run_cfg s0 pre).2.2, hT]
+  let s2 := step s1 (.request c v)
+  have hi2 : Inv s2 := inv_step s1 _ hi1
+  have hr2 : s1.nextReq < s2.nextReq := by
+    have := step_nextReq s1 (.request c v); simp only [halive, if_false] at this
+    show s1.nextReq < (step s1 (.request c v)).nextReq; omega
+  have ho2 : Owned s1.nextReq c v s1.now s2 := owned_request s1 c v hi1.bounds
+  have e3 : run s0 (pre ++ [.request c v] ++ mid) = run s2 mid := by
+    rw [run_append, run_append, hs1]; rfl
+  rw [e3] at hlate ⊢
+  have hi3 : Inv (run s2 mid) := inv_run s2 mid hi2
+  have ho3 := owned_run s2 mid hi2.bounds s1.nextReq c v s1.now hr2 ho2
+  have hT3 : (run s2 mid).timeout = T := by
+    rw [(run_cfg s2 mid).2.2]; show (step s1 _).timeout = T; rw [(step_cfg s1 _).2.2, hT1]
+  intro t ht hreq hd
+  obtain ⟨_, _, hborn⟩ := ho3 t ht hreq
+  have h2 := (hi3.timed t ht).2
+  rw [hd, if_pos rfl, hborn, hT3] at h2
+  simp only [isDone, deadlinePassed, h2, Bool.or_eq_true, decide_eq_true_eq]
+  right; omega
+
+/-- every pending task of the request belongs to its client and has its verb -/
+theorem owned_after (fwd excl ret : Bool) (T n : Nat) (pre mid : List Op) (c : Nat) (v : Verb)
+    (halive : (run (Hub.init fwd excl ret T n) pre).run ≠ .exited) :
+    ∀ t ∈ (run (Hub.init fwd excl ret T n) (pre ++ [.request c v] ++ mid)).tasks,
+        t.req = (run (Hub.init fwd excl ret T n) pre).nextReq → t.client = c ∧ t.verb = v := by
+  generalize hs0 : Hub.init fwd excl ret T n = s0 at *
+  have hi0 : Inv s0 := hs0 ▸ inv_init fwd excl ret T n
+  generalize hs1 : run s0 pre = s1 at *
+  have hi1 : Inv s1 := hs1 ▸ inv_run s0 pre hi0
+  have hr2 : s1.nextReq < (step s1 (.request c v)).nextReq := by
+    have := step_nextReq s1 (.request c v); simp only [halive, if_false] at this; omega
+  have e3 : run s0 (pre ++ [.request c v] ++ mid) = run (step s1 (.request c v)) mid := by
+    rw [run_append, run_append, hs1]; rfl
+  rw [e3]
+  have ho3 := owned_run _ mid (bounds_step s1 _ hi1.bounds) s1.nextReq c v s1.now hr2 (owned_request s1 c v hi1.bounds)
+  intro t ht hreq
+  exact ⟨(ho3 t ht hreq).1, (ho3 t ht hreq).2.1⟩
+
+-- ---- which verdict a finished task gets ----
+
+/-- the verdicts recorded in the log are those of `on_finish` -/
+theorem verdict_of_log (fwd excl ret : Bool) (T n : Nat) (ops : List Op)
+    (e : Emit) (he : e ∈ (run (Hub.init fwd excl ret T n) ops).log)
+    (t : Task) (to : Bool) (hsrc : e.src = some (t, to)) :
+    e.kind ∈ verdicts excl t (fwd && to) ∧ to = timedOut t := by
+  have hi := inv_run _ ops (inv_init fwd excl ret T n)
+  have hcfg := run_cfg (Hub.init fwd excl ret T n) ops
+  obtain ⟨_, hto, _, _, hk⟩ := hi.acc.log e he t to hsrc
+  rw [hcfg.1, hcfg.2.1] at hk
+  exact ⟨hk, hto⟩
+
+-- ---- one client per request ----
+
+/-- all the messages about one request, and its pending tasks, name one client -/
+structure ReqClient (h : Hub) : Prop where
+  log_log : ∀ e1 ∈ h.log, ∀ e2 ∈ h.log, e1.req = e2.req → e1.client = e2.client
+  log_task : ∀ e ∈ h.log, ∀ t ∈ h.tasks, e.req = t.req → e.client = t.client
+  task_task : ∀ t1 ∈ h.tasks, ∀ t2 ∈ h.tasks, t1.req = t2.req → t1.client = t2.client
+
+theorem reqClient_init (a b c : Bool) (t n : Nat) : ReqClient (Hub.init a b c t n) := by
+  constructor <;> simp [Hub.init]
+
+theorem reqClient_step (h : Hub) (op : Op) (hb : Bounds h) (hr : ReqClient h) : ReqClient (step h op) := by
+  obtain ⟨h1, h2, h3⟩ := hr
+  -- messages appended by a step that copy (req, client) from a pending task
+  have ext : ∀ (l : List Emit) (tasks' : List Task),
+      (∀ e ∈ l, ∃ t ∈ h.tasks, e.req = t.req ∧ e.client = t.client) →
+      (∀ t' ∈ tasks', ∃ t ∈ h.tasks, t'.req = t.req ∧ t'.client = t.client) →
+      (∀ e1 ∈ h.log ++ l, ∀ e2 ∈ h.log ++ l, e1.req = e2.req → e1.client = e2.client) ∧
+      (∀ e ∈ h.log ++ l, ∀ t ∈ tasks', e.req = t.req → e.client = t.client) ∧
+      (∀ t1 ∈ tasks', ∀ t2 ∈ tasks', t1.req = t2.req → t1.client = t2.client) := by
+    intro l tasks' hl ht
+    refine ⟨?_, ?_, ?_⟩
+    · intro e1 he1 e2 he2 hreq
+      simp only [List.mem_append] at he1 he2
+      rcases he1 with he1 | he1 <;> rcases he2 with he2 | he2
+      · exact h1 e1 he1 e2 he2 hreq
+      · obtain ⟨t, ht', a, b⟩ := hl e2 he2; rw [b]; exact h2 e1 he1 t ht' (by omega)
+      · obtain ⟨t, ht', a, b⟩ := hl e1 he1; rw [b]; exact (h2 e2 he2 t ht' (by omega)).symm
+      · obtain ⟨t, ht', a, b⟩ := hl e1 he1; obtain ⟨t2, ht2, a2, b2⟩ := hl e2 he2
+        rw [b, b2]; exact h3 t ht' t2 ht2 (by omega)
+    · intro e he t' ht' hreq
+      obtain ⟨t, htm, a, b⟩ := ht t' ht'
+      simp only [List.mem_append] at he
+      rcases he with he | he
+      · rw [b]; exact h2 e he t htm (by omega)
+      · obtain ⟨t0, ht0, a0, b0⟩ := hl e he; rw [b0, b]; exact h3 t0 ht0 t htm (by omega)
+    · intro t1 ht1 t2 ht2 hreq
+      obtain ⟨u1, hu1, a1, b1⟩ := ht t1 ht1; obtain ⟨u2, hu2, a2, b2⟩ := ht t2 ht2
+      rw [b1, b2]; exact h3 u1 hu1 u2 hu2 (by omega)
+  cases op with
+  | request c v =>
+    simp only [step, request]
+    split
+    · exact ⟨h1, h2, h3⟩
+    · -- the new request's serial is fresh
+      have fresh_e : ∀ e ∈ h.log, e.req ≠ h.nextReq := fun e he => by have := hb.log_lt e he; omega
+      have fresh_t : ∀ t ∈ h.tasks, t.req ≠ h.nextReq := fun t ht => by have := (hb.tasks_lt t ht).2.1; omega
+      have hem := requestEmits_req h c v
+      constructor
+      · intro e1 he1 e2 he2 hreq
+        simp only [List.mem_append] at he1 he2
+        rcases he1 with he1 | he1 <;> rcases he2 with he2 | he2
+        · exact h1 e1 he1 e2 he2 hreq
+        · exact absurd (hreq.trans (hem e2 he2).1) (fresh_e e1 he1)
+        · exact absurd (hreq.symm.trans (hem e1 he1).1) (fresh_e e2 he2)
+        · rw [(hem e1 he1).2, (hem e2 he2).2]
+      · intro e he t ht hreq
+        simp only [List.mem_append] at he
+        simp only at ht
+        split at ht
+        · simp only [List.mem_append, List.mem_singleton] at ht
+          rcases he with he | he <;> rcases ht with ht | rfl
+          · exact h2 e he t ht hreq
+          · exact absurd (by simpa [newTask] using hreq) (fresh_e e he)
+          · exact absurd (hreq.symm.trans (hem e he).1) (fresh_t t ht)
+          · simp [newTask, (hem e he).2]
+        · rcases he with he | he
+          · exact h2 e he t ht hreq
+          · exact absurd (hreq.symm.trans (hem e he).1) (fresh_t t ht)
+      · intro t1 ht1 t2 ht2 hreq
+        simp only at ht1 ht2
+        split at ht1
+        · rename_i hg
+          simp only [hg, if_true, List.mem_append, List.mem_singleton] at ht1 ht2
+          rcases ht1 with ht1 | rfl <;> rcases ht2 with ht2 | rfl
+          · exact h3 t1 ht1 t2 ht2 hreq
+          · exact absurd (by simpa [newTask] using hreq) (fresh_t t1 ht1)
+          · exact absurd (by simpa [newTask] using hreq.symm) (fresh_t t2 ht2)
+          · rfl
+        · rename_i hg
+          simp only [hg, if_false, Bool.false_eq_true] at ht2
+          exact h3 t1 ht1 t2 ht2 hreq
+  | response w rid st =>
+    simp only [step, response]
+    split
+    · exact ⟨h1, h2, h3⟩
+    · have := ext (responseEmits h rid st) (responseTasks h w rid st)
+        (fun e he => by obtain ⟨_, t, ht, a, b⟩ := responseEmits_req h rid st e he; exact ⟨t, ht, a, b⟩)
+        (fun t' ht' => by obtain ⟨t0, ht0, _, a, _, b, _⟩ := responseTasks_mem h w rid st t' ht'; exact ⟨t0, ht0, a, b⟩)
+      exact ⟨this.1, this.2.1, this.2.2⟩
+  | close w => simp only [step, close]; split <;> exact ⟨h1, h2, h3⟩
+  | sendFail w => simp only [step, sendFail]; split <;> exact ⟨h1, h2, h3⟩
+  | advance n => exact ⟨h1, h2, h3⟩
+  | drop c => simp only [step]; split <;> exact ⟨h1, h2, h3⟩
+  | tick =>
+    simp only [step, tick]
+    split
+    · exact ⟨h1, h2, h3⟩
+    · have := ext ((h.tasks.filter (isDone h.now)).flatMap (finishEmits h)) (h.tasks.filter (fun t => !isDone h.now t))
+        (fun e he => by
+          simp only [List.mem_flatMap, List.mem_filter] at he
+          obtain ⟨t, ⟨ht, _⟩, he⟩ := he
+          have := finishEmits_req h t e he
+          exact ⟨t, ht, this.1, this.2⟩)
+        (fun t' ht' => ⟨t', (List.mem_filter.mp ht').1, rfl, rfl⟩)
+      exact ⟨this.1, this.2.1, this.2.2⟩
+
+theorem reqClient_run (a b c : Bool) (T n : Nat) (ops : List Op) : ReqClient (run (Hub.init a b c T n) ops) := by
+  suffices ∀ h, Bounds h → ReqClient h → ReqClient (run h ops) from
+    this _ (bounds_init a b c T n) (reqClient_init a b c T n)
+  induction ops with
+  | nil => intro h _ hr; exact hr
+  | cons o os ih => intro h hb hr; rw [run_cons]; exact ih _ (bounds_step h o hb) (reqClient_step h o hb hr)
+
+theorem classify_answers (cv : ClientVerb) : (cv.classify true).answers = true := by
+  cases cv <;> simp [ClientVerb.classify, Verb.answers, Verb.gathers, Verb.immediate]
+
+/-- every pending task of the request is releasable: past its deadline, or gathered
+    without a deadline and finished -/
+theorem releasable_all_verbs (fwd excl ret : Bool) (T n : Nat)
+    (pre mid : List Op) (c : Nat) (v : Verb)
+    (halive : (run (Hub.init fwd excl ret T n) pre).run ≠ .exited)
+    (hlate : (run (Hub.init fwd excl ret T n) pre).now + T
+        < (run (Hub.init fwd excl ret T n) (pre ++ [.request c v] ++ mid)).now)
+    (hnohang : ¬ ∃ t ∈ (run (Hub.init fwd excl ret T n) (pre ++ [.request c v] ++ mid)).tasks,
+        t.req = (run (Hub.init fwd excl ret T n) pre).nextReq ∧ t.verb.hasDeadline = false ∧ hasFinished t = false) :
+    ∀ t ∈ (run (Hub.init fwd excl ret T n) (pre ++ [.request c v] ++ mid)).tasks,
+        t.req = (run (Hub.init fwd excl ret T n) pre).nextReq →
+        isDone (run (Hub.init fwd excl ret T n) (pre ++ [.request c v] ++ mid)).now t = true := by
+  intro t ht hreq
+  cases hd : t.verb.hasDeadline
+  · cases hf : hasFinished t
+    · exact absurd ⟨t, ht, hreq, hd, hf⟩ hnohang
+    · simp [isDone, hf]
+  · exact releasable_of_deadline fwd excl ret T n pre mid c v halive hlate t ht hreq hd
+
+/-- a gathered verdict whose verb looks at the workers is a mutating request's or a LoadState's -/
+theorem gathering_verb_cases (fwd excl ret : Bool) (T n : Nat) (ops : List Op)
+    (e : Emit) (he : e ∈ (run (Hub.init fwd excl ret T n) ops).log)
+    (t : Task) (to : Bool) (hsrc : e.src = some (t, to))
+    (hverb : ¬ (t.verb = .query ∨ t.verb = .softStop ∨ t.verb = .hardStop)) :
+    t.verb = .worker ∨ ∃ k, t.verb = .loadState k := by
+  have hk := (verdict_of_log fwd excl ret T n ops e he t to hsrc).1
+  cases hv : t.verb <;> simp_all [verdicts]
+
+theorem verdict_ignores_core (ret : Bool) (T n : Nat) (ops : List Op)
+    (e : Emit) (he : e ∈ (run (Hub.init true true ret T n) ops).log)
+    (t : Task) (to : Bool) (hsrc : e.src = some (t, to)) :
+    (t.verb = .query ∨ t.verb = .softStop → e.kind = .ok) ∧
+    (t.verb = .hardStop → (e.kind = .ok ↔ to = false)) := by
+  have hk := (verdict_of_log true true ret T n ops e he t to hsrc).1
+  constructor
+  · rintro (hv | hv) <;> simpa [verdicts, hv] using hk
+  · intro hv
+    simp only [verdicts, hv, Bool.true_and] at hk
+    cases to <;> simp_all
+
+theorem newTask_sent_nodup (fwd excl ret : Bool) (T n : Nat) (ops : List Op) (c : Nat) (v : Verb) :
+    (newTask (run (Hub.init fwd excl ret T n) ops) c v).sent.Nodup := by
+  simp only [newTask, allRids]
+  exact allRids_nodup _ (workersNodup_run fwd excl ret T n ops) _ _ (subs_nodup v)
+
+theorem no_cross_talk_two (fwd excl ret : Bool) (T n : Nat) (pre mid post : List Op) (c1 c2 : Nat) (v1 v2 : Verb)
+    (hne : c1 ≠ c2)
+    (h1 : (run (Hub.init fwd excl ret T n) pre).run ≠ .exited)
+    (h2 : (run (Hub.init fwd excl ret T n) (pre ++ [.request c1 v1] ++ mid)).run ≠ .exited) :
+    ∀ e ∈ (run (Hub.init fwd excl ret T n) (pre ++ [.request c1 v1] ++ mid ++ [.request c2 v2] ++ post)).log,
+      (e.req = (run (Hub.init fwd excl ret T n) pre).nextReq → e.client ≠ c2) ∧
+      (e.req = (run (Hub.init fwd excl ret T n) (pre ++ [.request c1 v1] ++ mid)).nextReq → e.client ≠ c1) := by
+  intro e he
+  constructor
+  · intro hr
+    have := no_cross_talk_core fwd excl ret T n pre (mid ++ [.request c2 v2] ++ post) c1 v1 h1 e
+      (by simpa [List.append_assoc] using he) hr
+    rw [this]; exact hne
+  · intro hr
+    have := no_cross_talk_core fwd excl ret T n (pre ++ [.request c1 v1] ++ mid) post c2 v2 h2 e he hr
+    rw [this]; exact fun h => hne h.symm
+
 end Sozu.Hub
